@@ -995,7 +995,7 @@ class Evaluator:
         if self.static_len is not None:
             k = self.static_len(it)
             if k is not None:
-                return [("item", it, i) for i in range(k)]
+                return [self._item(it, i) for i in range(k)]
         if it[0] in ("list", "tuple") and not any(x[0] == "star" for x in it[1]):
             return list(it[1])
         if it[0] == "ite":
